@@ -11,3 +11,9 @@ func TestCounts(t *testing.T) {
 		t.Log(g.Text())
 	}
 }
+
+func TestSyn(t *testing.T) {
+	t.Log("S1(2)", len(S1(2, false)), "S1(3)", len(S1(3, false)), "S1(3,undef)", len(S1(3, true)))
+	t.Log(S1(3, false)[3000].Text())
+	t.Log(len(S2()), S2()[24].Text())
+}
